@@ -237,8 +237,8 @@ func TestVerifC09_Grid(t *testing.T) {
 		file := strings.Join(lines, "\n") + "\n"
 		for _, capN := range []int{1, 2, 4, 1024} {
 			rs := v09Build(file, len(rules), capN)
-			n, multi := 0, false
-			for inner := 0; inner < 5; inner++ { // which dimension is the innermost loop
+			n, multi, fail := 0, false, ""
+			for inner := 0; inner < 5 && fail == ""; inner++ { // which dimension is the innermost loop
 				order := []int{}
 				for d := 0; d < 5; d++ {
 					if d != inner {
@@ -249,6 +249,9 @@ func TestVerifC09_Grid(t *testing.T) {
 				idx := make([]int, 5)
 				var rec func(k int)
 				rec = func(k int) {
+					if fail != "" {
+						return
+					}
 					if k == 5 {
 						q := v09Query{Name: names[idx[0]], V4: v4s[idx[1]], V6: v6s[idx[2]], Proto: protos[idx[3]], Port: ports[idx[4]], V4Long: n%2 == 0}
 						n++
@@ -257,7 +260,7 @@ func TestVerifC09_Grid(t *testing.T) {
 							multi = true
 						}
 						if msg != "" {
-							t.Fatalf("C09 grid: file %d cache=%d pass %d lookup #%d: %s\nrules:\n%s", fi, capN, inner, n, msg, file)
+							fail = fmt.Sprintf("file %d cache=%d pass %d lookup #%d: %s\nrules:\n%s", fi, capN, inner, n, msg, file)
 						}
 						return
 					}
@@ -272,6 +275,9 @@ func TestVerifC09_Grid(t *testing.T) {
 				return fmt.Sprintf("grid file %d cache=%d: %d lookups in 5 passes over %v names x v4 x v6 x proto x port\n%s", fi, capN, n, dims, file)
 			})
 			st.Extra(fmt.Sprintf("grid_lookups_file%d_cache%d", fi, capN), n)
+			if fail != "" { // (recorded above first: the driver needs at least one sample per stats file)
+				t.Fatalf("C09 grid: %s", fail)
+			}
 		}
 	}
 }
